@@ -43,6 +43,8 @@ class FromParamsBound(ConfiguredBaseModel):
 class TypeDefBound(pd.RootModel):
     root: Annotated[ExplicitBound | FromParamsBound, pd.Field(discriminator="b")]
 
+    model_config = pd.ConfigDict(json_schema_extra={"required": ["b"]})
+
 
 class TypeDef(ConfiguredBaseModel):
     extension: ExtensionId
